@@ -224,12 +224,23 @@ def front_end_twins(res, ctx, names):
     entries = [(6, 100, b'proc0', b'')]
     files = {'v2': wire.v2_file(entries, 8, records),
              'v3': wire.V3Spec(entries=entries, chunks=gen.split_chunks(rng, records, 3)).build()}
+    # a front-end object that served a request under a table WITHOUT the base calls (nothing of it may stick)
+    used = PyKdebugParser()
+    used.color = False
+    used.show_timestamp = used.show_tid = used.show_process = False
+    try:
+        list(used.traces(io.BytesIO(files['v2']), {k: v for k, v in ev.bundled_codes().items() if v.endswith('_nocancel')}))
+    except Exception as x:
+        res.violation(f'c17-front-end-raises-{core.exc_name(x)}', f'request under a reduced table: {x!r}', {'file': files['v2']})
+        return
     for kind, data in files.items():
-        for table in (None, dict(ev.bundled_codes())):
+        for table in (None, dict(ev.bundled_codes()), 'used-object'):
             for method in ('traces', 'formatted_traces'):
                 p = PyKdebugParser()
                 p.color = False
                 p.show_timestamp = p.show_tid = p.show_process = False
+                if table == 'used-object':
+                    p, table = used, None
                 try:
                     out = [str(t) if method == 'traces' else t for t in getattr(p, method)(io.BytesIO(data), table)]
                 except Exception as x:
